@@ -71,8 +71,10 @@ var propertyClauses = map[string]clauseInfo{
 			"processEmphasis, at every wrap: the opener is the nearest element below the closer that matches it (rules 9/10 included), the closer is a '*'/'_' element with the closer flag, and strong emphasis is produced exactly when both delimiter nodes still have two characters (the spans have just been shortened by 2, else by 1)",
 			"deleteDelimiterStack: elements below i keep their place, elements from j on move down by j-i, same backing array",
 			"processEmphasis consumes exactly the delimiters above stack_bottom and leaves the ones below unchanged",
+			"parseDelimiterRun: the element pushed for a delimiter run has the text node of the maximal run of that character (inside the text run), n = its length, typ = its character, and is active; the elements already on the stack are kept",
 		},
 		notDecided: []string{
+			"that the can-open / can-close bits of the pushed element are emphasisFlags of exactly that run: a postcondition saying so verified, but so did a deliberately wrong variant (next character taken one byte after the start of the run), so the clause was withdrawn rather than claimed (DESIGN 11.7)",
 			"that the closer loop visits closers in stack order without skipping one (the inner scan is not given a two-state contract), and termination of the closer loop (it depends on the lengths of the delimiter nodes)",
 			"that wrap/remove build the tree the abstract algorithm prescribes (tree surgery is abstracted; the bounded stand-in of C13/C02 checks the resulting spans on small inputs)",
 		},
